@@ -34,11 +34,59 @@ pub struct Case {
     pub start_a: Option<u32>,
     pub start_b: Option<u32>,
     pub hist: Vec<Act>,
+    #[serde(default)]
+    pub memory: bool,
 }
 
 #[derive(Clone)]
 pub struct C08 {
     pub depth: usize,
+    /// Arc<Mutex<MemoryStore>> instead of the contract store
+    pub memory: bool,
+}
+
+/// The store under the authenticator plus the creation order of its credentials (the in-memory map
+/// has no order of its own; actions address credentials by creation index).
+#[derive(Clone)]
+pub struct St8 {
+    kind: St8Kind,
+    order: std::sync::Arc<std::sync::Mutex<Vec<Vec<u8>>>>,
+}
+#[derive(Clone)]
+enum St8Kind {
+    Ref(Shared<RefStore>),
+    Mem(std::sync::Arc<tokio::sync::Mutex<passkey_authenticator::MemoryStore>>),
+}
+impl St8 {
+    fn new(a: Option<u32>, b: Option<u32>, memory: bool) -> St8 {
+        let r = init_store(a, b);
+        let order: Vec<Vec<u8>> = r.0.lock().unwrap().items.iter().map(|p| p.credential_id.to_vec()).collect();
+        let kind = if memory {
+            let m: passkey_authenticator::MemoryStore = r.0.lock().unwrap().items.iter().map(|p| (p.credential_id.to_vec(), p.clone())).collect();
+            St8Kind::Mem(std::sync::Arc::new(tokio::sync::Mutex::new(m)))
+        } else {
+            St8Kind::Ref(r)
+        };
+        St8 { kind, order: std::sync::Arc::new(std::sync::Mutex::new(order)) }
+    }
+    /// records in creation order; records whose id the harness has not seen are appended (sorted)
+    fn recs_ordered(&self) -> Vec<Rec> {
+        let all = match &self.kind {
+            St8Kind::Ref(r) => r.recs(),
+            St8Kind::Mem(m) => m.recs(),
+        };
+        let order = self.order.lock().unwrap().clone();
+        let mut out: Vec<Rec> = order.iter().filter_map(|id| all.iter().find(|r| r.id == *id).cloned()).collect();
+        for r in all {
+            if !order.contains(&r.id) {
+                out.push(r);
+            }
+        }
+        out
+    }
+    fn note_created(&self, id: Vec<u8>) {
+        self.order.lock().unwrap().push(id);
+    }
 }
 
 fn init_store(a: Option<u32>, b: Option<u32>) -> Shared<RefStore> {
@@ -52,17 +100,27 @@ fn init_store(a: Option<u32>, b: Option<u32>) -> Shared<RefStore> {
     Shared::new(s)
 }
 
-fn counters(store: &Shared<RefStore>) -> Vec<Option<u32>> {
-    store.0.lock().unwrap().items.iter().map(|p| p.counter).collect()
+fn counters(store: &St8) -> Vec<Option<u32>> {
+    store.recs_ordered().iter().map(|p| p.counter).collect()
 }
 
 /// Apply one action on the real code; returns findings about this step.
-fn apply(store: &Shared<RefStore>, act: &Act, case: &dyn Fn() -> Value, fs: &mut Vec<Finding>, outcome: &mut String) {
+fn apply(store: &St8, act: &Act, case: &dyn Fn() -> Value, fs: &mut Vec<Finding>, outcome: &mut String) {
     let log = Log::new();
-    let before = store.0.lock().unwrap().recs_ordered();
+    let before = store.recs_ordered();
     let silent = matches!(act, Act::Assert { silent: true, .. });
     let uvm = if silent { ScriptedUv::consenting(log.clone()).outcome(UvOutcome::Ok { presence: false, verification: false }) } else { ScriptedUv::consenting(log.clone()) };
-    let mut auth = Authenticator::new(Aaguid::new_empty(), Logging { inner: store.clone(), log: log.clone() }, uvm).hmac_secret(HmacSecretConfig::new_without_uv());
+    match &store.kind {
+        St8Kind::Ref(r) => apply_on(Authenticator::new(Aaguid::new_empty(), Logging { inner: r.clone(), log: log.clone() }, uvm).hmac_secret(HmacSecretConfig::new_without_uv()), store, act, case, fs, outcome, &log, before),
+        St8Kind::Mem(m) => apply_on(Authenticator::new(Aaguid::new_empty(), Logging { inner: m.clone(), log: log.clone() }, uvm).hmac_secret(HmacSecretConfig::new_without_uv()), store, act, case, fs, outcome, &log, before),
+    }
+}
+
+#[allow(clippy::too_many_arguments)]
+fn apply_on<S>(mut auth: Authenticator<Logging<S>, ScriptedUv>, store: &St8, act: &Act, case: &dyn Fn() -> Value, fs: &mut Vec<Finding>, outcome: &mut String, log: &Log, before: Vec<Rec>)
+where
+    S: passkey_authenticator::CredentialStore<PasskeyItem = passkey_types::Passkey> + Send + Sync,
+{
     match act {
         Act::Assert { cred, ext, silent } => {
             let Some(target) = before.get(*cred).cloned() else {
@@ -72,7 +130,7 @@ fn apply(store: &Shared<RefStore>, act: &Act, case: &dyn Fn() -> Value, fs: &mut
             let exts = ext.then(|| get_assertion::ExtensionInputs { hmac_secret: None, prf: Some(AuthenticatorPrfInputs { eval: Some(AuthenticatorPrfValues { first: [7; 32], second: None }), eval_by_credential: None }) });
             let req = ga_request(RP, Some(vec![target.id.clone()]), false, !*silent, !*silent, false, exts);
             let r = par::catch(|| block_on(auth.get_assertion(req)));
-            let after = store.0.lock().unwrap().recs_ordered();
+            let after = store.recs_ordered();
             let stored_after = after.iter().find(|r| r.id == target.id).and_then(|r| r.counter);
             let updates = log.snapshot().iter().filter(|e| matches!(e, Event::Update { .. })).count();
             let others_same = before.iter().zip(after.iter()).all(|(b, a)| b.id == target.id || b == a) && before.len() == after.len();
@@ -135,7 +193,7 @@ fn apply(store: &Shared<RefStore>, act: &Act, case: &dyn Fn() -> Value, fs: &mut
             let ext = passkey_types::ctap2::make_credential::ExtensionInputs { hmac_secret: Some(true), hmac_secret_mc: None, prf: None };
             let req = mc_request(RP, &[9], None, true, true, true, false, Some(ext));
             let r = par::catch(|| block_on(auth.make_credential(req)));
-            let after = store.0.lock().unwrap().recs_ordered();
+            let after = store.recs_ordered();
             let mut bad = |kind: &str, d: String| fs.push(Finding::new(format!("op=register/kind={kind}"), d, case()));
             match r {
                 Err(p) => {
@@ -149,6 +207,9 @@ fn apply(store: &Shared<RefStore>, act: &Act, case: &dyn Fn() -> Value, fs: &mut
                 }
                 Ok(Ok(resp)) => {
                     *outcome = format!("register:ok:counter={counter}");
+                    if let Some(a) = resp.auth_data.attested_credential_data.as_ref() {
+                        store.note_created(a.credential_id().to_vec());
+                    }
                     let wire = resp.auth_data.to_vec();
                     let wire_counter = u32::from_be_bytes(wire[33..37].try_into().unwrap());
                     if wire_counter != 0 || resp.auth_data.counter.unwrap_or(0) != 0 {
@@ -195,7 +256,7 @@ impl Sys for C08 {
     }
     fn step(&self, init: usize, hist: &[Act], act: &Act, st: &mut Stats) -> Option<Self::Snap> {
         let (a, b) = (STARTS[init / STARTS.len()], STARTS[init % STARTS.len()]);
-        let store = init_store(a, b);
+        let store = St8::new(a, b, self.memory);
         let mut sink = vec![];
         let mut o = String::new();
         for h in hist {
@@ -206,7 +267,7 @@ impl Sys for C08 {
         let mk_case = || {
             let mut full = hist.to_vec();
             full.push(act.clone());
-            serde_json::to_value(Case { start_a: a, start_b: b, hist: full }).unwrap()
+            serde_json::to_value(Case { start_a: a, start_b: b, hist: full, memory: self.memory }).unwrap()
         };
         apply(&store, act, &mk_case, &mut fs, &mut outcome);
         let snap = counters(&store);
@@ -223,10 +284,16 @@ impl Sys for C08 {
 
 pub fn run(ctx: &Ctx) -> Result<Run, String> {
     let depth = ctx.tier.pick(4, 8);
-    let out = graph::bfs(&C08 { depth }, ctx.threads);
+    let mut out = graph::bfs(&C08 { depth, memory: false }, ctx.threads);
+    // the same exploration on the shipped in-memory store (one level less deep)
+    let out_m = graph::bfs(&C08 { depth: depth - 1, memory: true }, ctx.threads);
+    out.states += out_m.states;
+    out.transitions += out_m.transitions;
+    out.generated += out_m.generated;
+    out.stats.merge(out_m.stats);
     let mut run = Run::from_stats(
         "model_checking",
-        "level-synchronous explicit-state BFS over the real get_assertion/make_credential: 49 start vectors (two credentials with each of 7 start counters incl. 0, 2^31-1, 2^31, 2^32-2, 2^32-1 and none, one counter-less credential), actions assert(cred i, PRF on/off, with consent / silent: up=uv=false and nothing reported) and register(counter on/off), states deduplicated per start vector on the counter vector; every transition is a distinct non-trivial case (a real ceremony on a rebuilt store)",
+        "level-synchronous explicit-state BFS over the real get_assertion/make_credential: 49 start vectors (two credentials with each of 7 start counters incl. 0, 2^31-1, 2^31, 2^32-2, 2^32-1 and none, one counter-less credential), actions assert(cred i, PRF on/off, with consent / silent: up=uv=false and nothing reported) and register(counter on/off), states deduplicated per start vector on the counter vector; run on the contract store and (one level less deep) on Arc<Mutex<MemoryStore>>; every transition is a distinct non-trivial case (a real ceremony on a rebuilt store)",
         true,
         out.stats,
     );
@@ -240,7 +307,7 @@ pub fn run(ctx: &Ctx) -> Result<Run, String> {
 
 pub fn replay(_ctx: &Ctx, case: &Value) -> Result<Vec<Finding>, String> {
     let c: Case = serde_json::from_value(case.clone()).map_err(|e| format!("bad C08 case: {e}"))?;
-    let store = init_store(c.start_a, c.start_b);
+    let store = St8::new(c.start_a, c.start_b, c.memory);
     let mut fs = vec![];
     let mut o = String::new();
     let n = c.hist.len();
